@@ -7,7 +7,7 @@ index, and promotion to the real tree is callable only from write entry points."
 import ast
 
 from .. import ctx as ctxmod
-from ..cfg import cfg_of
+from ..cfg import cfg_of, ENTRY
 from ..src import own_nodes, norm
 from ..report import AnalysisError
 from . import treefacts as tf
@@ -130,11 +130,17 @@ def run(chk):
         fi = ix.func(fq)
         p = fi.call_params()[0]
         bad = []
+        from ..cfg import edge_implies
+        g_ = cfg_of(fi)
+
+        def not_proving(src, dst, lab, g_=g_, p=p):
+            nd = g_.nodes[src]
+            return not (nd.kind == 'test' and edge_implies(nd.ast, lab, ('%s is not None' % p, p), ('%s is None' % p, 'not %s' % p)))
+        reach_ = g_.reach(ENTRY, labels_ok=not_proving)
         for s in cg.sites[fq]:
             if s.kind == 'call' and any(t.kind == 'func' and t.func.name == 'add' for t in s.targets):
-                bctx = forwarding.branch_context(s.node)
-                if bctx != '%s is not None [true]' % p:
-                    bad.append(bctx or 'unconditional')
+                if g_.node_for(s.node) in reach_:      # reachable without `p is not None` having been established
+                    bad.append(forwarding.branch_context(s.node) or 'unconditional')
         chk.ob('C11-L3', '%s attaches only a non-None parent' % fq, not bad, 'add() is called under %s' % bad, fi.loc,
                key='C11-L3|%s' % fq)
 
